@@ -165,7 +165,7 @@ static void on_dtor(Core& c)
     if (c.magic == MAGIC_DEAD || LG.st[c.id] != 1)
     {
         ++LG.dbl;
-        std::snprintf(b, sizeof b, "X%u", c.id);
+        std::snprintf(b, sizeof b, "D%u", c.id);
         LG.add(b);
         return;
     }
@@ -183,14 +183,15 @@ struct test_error
 {
     int code;
 };
+static bool g_copy_throws = false;    // armed only by the 'cx' step of FUNX witness cases
 
 template <bool Big>
 struct Body
 {
     Core c;
-    unsigned char pad[Big ? 40 : 4];
+    unsigned char pad[Big ? 40 : 8];    // small = exactly the size of the inline buffers
 };
-static_assert(sizeof(Body<false>) <= 3 * sizeof(void*));
+static_assert(sizeof(Body<false>) == 3 * sizeof(void*));
 static_assert(sizeof(Body<true>) > 4 * sizeof(void*));
 
 static void core_init(Core& c, int k, int beh)
@@ -231,6 +232,7 @@ struct Callable
     }
     Callable(Callable const& o) requires Copy
     {
+        if (g_copy_throws) throw test_error{0};
         core_from(b.c, o.b.c);
         on_ctor(b.c, 'K', &o.b.c);
     }
@@ -766,6 +768,24 @@ static void run_fn_case(std::optional<W>* S, int n, std::vector<OpRec> const& op
                 *S[j] = src;
             }
         }
+        else if (o.name == "cx")
+        {
+            // copy assignment while the wrapped type's copy constructor throws (finding F9b)
+            if constexpr (std::is_copy_constructible_v<W>)
+            {
+                W const& src = *S[i];
+                g_copy_throws = true;
+                try
+                {
+                    *S[j] = src;
+                }
+                catch (...)
+                {
+                    res = exc_token();
+                }
+                g_copy_throws = false;
+            }
+        }
         else if (o.name == "ma") *S[j] = std::move(*S[i]);
         else if (o.name == "sw") S[j]->swap(*S[i]);
         else if (o.name == "rs")
@@ -856,7 +876,7 @@ static void run_case(std::string const& kind, std::string const& id, int p1, int
     if (kind == "SND")
         std::printf("IN SND %s sbo=%d nu=%d na=%d ops=%s\n", id.c_str(), sbo, p1, p2, opstr.c_str());
     else
-        std::printf("IN FUN %s copyable=%d n=%d ops=%s\n", id.c_str(), p1, p2, opstr.c_str());
+        std::printf("IN %s %s copyable=%d n=%d ops=%s\n", kind.c_str(), id.c_str(), p1, p2, opstr.c_str());
     std::fflush(stdout);
     g_steps.clear();
     g_steps.reserve(1 << 16);
@@ -878,10 +898,10 @@ static void run_case(std::string const& kind, std::string const& id, int p1, int
     int notdead = 0;
     for (std::uint32_t i = 0; i < LG.next && i < sizeof LG.st; ++i)
         if (LG.st[i] != 2) ++notdead;
-    std::printf("OUT %s %s %s\n", kind == "SND" ? "SND" : "FUN", id.c_str(), g_steps.c_str());
+    std::printf("OUT %s %s %s\n", kind.c_str(), id.c_str(), g_steps.c_str());
     std::printf("MON %s %s constructed=%u alive_at_end=%d double_destroy=%d garbage=%d dead_use=%d "
                 "blocks_leaked=%d double_free=%d bool_mismatch=%d completion_count_bad=%d\n",
-        kind == "SND" ? "SND" : "FUN", id.c_str(), LG.next, notdead, LG.dbl, LG.garbage, LG.dead_use,
+        kind.c_str(), id.c_str(), LG.next, notdead, LG.dbl, LG.garbage, LG.dead_use,
         leak, g_dfree, g_boolmis, g_multi);
     std::fflush(stdout);
 }
@@ -931,13 +951,50 @@ int main(int argc, char** argv)
         std::string opstr = p == std::string::npos ? "" : line.substr(p + 5);
         auto ops = parse_ops(opstr);
         if (line.rfind("IN SND", 0) == 0) run_case("SND", "r", field(line, "nu"), field(line, "na"), ops);
-        else run_case("FUN", "r", field(line, "copyable"), field(line, "n"), ops);
+        else run_case(line.rfind("IN FUNX", 0) == 0 ? "FUNX" : "FUN", "r", field(line, "copyable"), field(line, "n"), ops);
         return 0;
     }
     std::uint64_t seed = argc > 1 ? std::strtoull(argv[1], nullptr, 10) : 1;
     int ncases = argc > 2 ? std::atoi(argv[2]) : 100;
     int first = argc > 3 ? std::atoi(argv[3]) : 0;
     std::string kinds = argc > 4 ? argv[4] : "sf";
+    if (kinds == "x")
+    {
+        // FUNX: copy assignment onto a non-empty function of the same stored type while the
+        // wrapped type's copy constructor throws; the corrupted wrapper is only destroyed after
+        for (int cs = first; cs < ncases; ++cs)
+        {
+            Rng g(seed * 7000003ull + (std::uint64_t) cs);
+            int n = 2 + g.below(2), big = g.below(2);
+            int j = g.below(n), i = (j + 1 + g.below(n - 1)) % n;
+            std::vector<OpRec> ops;
+            auto st = [&](int slot) {
+                OpRec o;
+                o.name = "st";
+                o.n = 7;
+                int v[7] = {slot, big, 1, g.below(2), g.below(90), g.below(2), g.below(3)};
+                std::memcpy(o.a, v, sizeof v);
+                ops.push_back(o);
+            };
+            st(j);
+            st(i);
+            for (int t = g.below(3); t > 0; --t)
+            {
+                OpRec o;
+                o.name = "iv";
+                o.n = 2;
+                o.a[0] = g.chance(1, 2) ? j : i, o.a[1] = g.below(10);
+                ops.push_back(o);
+            }
+            OpRec o;
+            o.name = "cx";
+            o.n = 2;
+            o.a[0] = j, o.a[1] = i;
+            ops.push_back(o);
+            run_case("FUNX", std::to_string(seed) + ".x" + std::to_string(cs), 1, n, ops);
+        }
+        return 0;
+    }
     for (int cs = first; cs < ncases; ++cs)
     {
         Rng g(seed * 1000003ull + (std::uint64_t) cs);
